@@ -8,6 +8,7 @@ import (
 	"strings"
 
 	"github.com/tobgu/qframe"
+	"github.com/tobgu/qframe/config/newqf"
 	qsql "github.com/tobgu/qframe/config/sql"
 
 	"verif/harness/core"
@@ -74,6 +75,22 @@ func runToSQLCase(c toSQLCase) *core.Failure {
 	st.Escape = esc
 	if c.Incr {
 		opts = append(opts, qsql.Incrementing())
+	}
+	// a short history: an earlier ToSQL call in the same process with the same table and dialect but
+	// other column names and order (statement text must not leak from one call to the next)
+	{
+		pst := sqlmem.NewStore()
+		pdb := sqlmem.Open(pst)
+		ptx, err := pdb.Begin()
+		if err != nil {
+			return core.Failf("begin: %v", err)
+		}
+		primer := qframe.New(map[string]interface{}{"second col": []int{1}, "c1": []string{"p"}}, newqf.ColumnOrder("second col", "c1"))
+		if err := primer.ToSQL(ptx, opts...); err != nil {
+			return core.Failf("primer ToSQL error: %v", err)
+		}
+		_ = ptx.Rollback()
+		pdb.Close()
 	}
 	db := sqlmem.Open(st)
 	defer db.Close()
@@ -428,7 +445,7 @@ func init() {
 	core.Register(&core.Check{
 		ID:    "C19",
 		Level: "model_checking",
-		Rule: "ToSQL: every two-column frame over all 25 type pairs with 1-3 rows over per-type alphabets (nulls, NaN, -0, MaxInt64; string/enum columns not entirely null) x {no escape, \", `} x {?, $n} x {t, \"my table\"} x rotating index shape, against a recording in-memory database/sql driver: exactly one INSERT per row in frame order with the specified text and the row's cells as arguments; with an escape character the rows are read back through ReadSQL from the store (enum columns return as strings). " +
+		Rule: "ToSQL: every two-column frame over all 25 type pairs with 1-3 rows over per-type alphabets (nulls, NaN, -0, MaxInt64; string/enum columns not entirely null) x {no escape, \", `} x {?, $n} x {t, \"my table\"} x rotating index shape, against a recording in-memory database/sql driver, each preceded in the same process by a ToSQL call with the same table/dialect but other column names: exactly one INSERT per row in frame order with the specified text and the row's cells as arguments; with an escape character the rows are read back through ReadSQL from the store (enum columns return as strings). " +
 			"ReadSQL: every result set of 1-2 (thorough 3) columns drawn from 7 column alternatives (int64, int64+Int64ToBool, float64 with NULL, bool, text with NULL, []byte with NULL, text+StringToFloat with NULL) and 1-3 (4) rows with every cell assignment (NULL in every position incl. leading), Precision 0 and 2. All cases non-trivial; distinct by content.",
 		Assumptions: []string{
 			"the harness driver (sqlmem) returns rows in insertion order with the stored column names and records statement texts/arguments as database/sql hands them over",
